@@ -136,6 +136,12 @@ func NewChangeProcessorImpl(cfg ChangeProcessorConfig) *ChangeProcessorImpl {
 		return processor.latestGraph != nil && processor.latestGraph.IsNGFPolicyRelevant(pol, gvk, nsname)
 	}
 
+	// A deleted EndpointSlice is known by its name only, so the Service it belonged to (a label) is unknown.
+	// The deletion is relevant if the slice may have belonged to a referenced Service of its Namespace.
+	isEndpointSliceDeletionRelevant := func(_ ngftypes.ObjectType, nsname types.NamespacedName) bool {
+		return processor.latestGraph != nil && processor.latestGraph.ReferencesServiceInNamespace(nsname.Namespace)
+	}
+
 	// Use this object store for all NGF policies
 	commonPolicyObjectStore := newNGFPolicyObjectStore(clusterStore.NGFPolicies, cfg.MustExtractGVK)
 
@@ -183,9 +189,12 @@ func NewChangeProcessorImpl(cfg ChangeProcessorConfig) *ChangeProcessorImpl {
 				predicate: funcPredicate{stateChanged: isReferenced},
 			},
 			{
-				gvk:       cfg.MustExtractGVK(&discoveryV1.EndpointSlice{}),
-				store:     nil,
-				predicate: funcPredicate{stateChanged: isReferenced},
+				gvk:   cfg.MustExtractGVK(&discoveryV1.EndpointSlice{}),
+				store: nil,
+				predicate: upsertDeleteFuncPredicate{
+					stateChangedOnUpsert: isReferenced,
+					stateChangedOnDelete: isEndpointSliceDeletionRelevant,
+				},
 			},
 			{
 				gvk:       cfg.MustExtractGVK(&apiv1.Secret{}),
